@@ -246,6 +246,8 @@ var (
 	reS1, reS1U  cose.Sign1Message
 	reSM         cose.SignMessage
 	reSig        cose.Signature
+	reProt       cose.ProtectedHeader
+	reUnprot     cose.UnprotectedHeader
 	reCopyRender = map[string]func() string{}
 	reCopyWant   = map[string]string{}
 )
@@ -275,6 +277,14 @@ func reuseCheck(kind string, orig []byte, fresh *decoded) {
 			err = reSig.UnmarshalCBOR(append([]byte{}, orig...))
 			render = func() string { return oSigv(&reSig) }
 			takeCopy = func() func() string { cp := reSig; return func() string { return oSigv(&cp) } }
+		case "DProt":
+			err = reProt.UnmarshalCBOR(append([]byte{}, orig...))
+			render = func() string { return "OG (GMap " + cFlatMap(reProt) + ")" }
+			takeCopy = func() func() string { return func() string { return "" } }
+		case "DUnprot":
+			err = reUnprot.UnmarshalCBOR(append([]byte{}, orig...))
+			render = func() string { return "OG (GMap " + cFlatMap(reUnprot) + ")" }
+			takeCopy = func() func() string { return func() string { return "" } }
 		}
 	})
 	if p || render == nil {
